@@ -41,7 +41,9 @@ def l_line(l, variant):
 def gfa_text(nodes, links, variant, with_header=True, filler=0):
     lines = ["H\tVN:Z:1.0"] if with_header else []
     # filler: that many unrelated one-base segments in front, so that the graph proper stands around line `filler` of the file
-    lines += [f"S\tfill{i}\tA" for i in range(filler)]
+    if filler < 0:      # |filler| MiB of one-line filler segments instead (a graph file of whole-genome size)
+        lines += [f"S\tbigfill{i}\t" + "A" * (1 << 23) for i in range((-filler) // 8)]
+    lines += [f"S\tfill{i}\tA" for i in range(max(filler, 0))]
     body = [f"S\t{name(n)}\t{SEQS[n]}\tLN:i:{len(SEQS[n])}" for n in nodes]
     body += [l_line(l, (variant + k) % 2 if variant >= 2 else variant) for k, l in enumerate(links)]
     if variant % 2 == 1:
@@ -136,6 +138,8 @@ def run(ctx):
         for off in range(-5, 2):
             j = twolink[0]
             jobs.append((f"big{base}{off:+d}", j[1], j[2], (off + 5) % 4, 2, (off + 5) % 4 == 3, base + off))
+    # ... and once in a file of 72 MiB (nine 8 MiB filler segments in front)
+    jobs.append(("big72MiB", twolink[0][1], twolink[0][2], 0, 2, False, -72))
     ctx.rule = (
         "one case per reachable GfaStore state (graph) x link-declaration variant (declared from either end, "
         "L before S, gz); each case runs ALL step lists of length <= 3 through GFA.extract_path (walk and "
